@@ -753,7 +753,31 @@ pub fn check_c13(case: &FCase, run: &Run) -> Result<(bool, Vec<String>), Violati
     }
     // safety rules (always)
     let mut lost_by_death: BTreeMap<(usize, u32), Vec<u32>> = BTreeMap::new();
+    let ev = &run.events;
+    // job id k is the k-th dispatch of the dispatcher script
+    let ttl_of: Vec<Option<u16>> = case.dispatcher.iter().filter_map(|o| if let FOp::Dispatch { ttl_ms, .. } = o { Some(*ttl_ms) } else { None }).collect();
+    let limit_ever = case.discard.is_some() || case.controller.iter().any(|o| matches!(o, FOp::SetDiscard { .. }));
     for (id, f) in &facts {
+        // the reason given to the discard handler must be one that applies to this job
+        if let Some((at, reason)) = f.discards.first() {
+            if reason == "TtlExpired" && *id < 9000 {
+                match ttl_of.get(*id as usize).copied().flatten() {
+                    None => return Err(viol("C13/discard-reason-not-applicable", format!("job {id} has no time-to-live but was discarded as TtlExpired: {f:?}"))),
+                    Some(ttl) => {
+                        let age_ns = ev[*at].0.saturating_sub(ev.get(f.dispatched_at).map_or(0, |x| x.0));
+                        if f.sent && age_ns < ttl as u64 * 1_000_000 {
+                            return Err(viol("C13/discard-reason-not-applicable", format!("job {id} (time-to-live {ttl} ms) was discarded as TtlExpired {} ns after it was submitted", age_ns)));
+                        }
+                    }
+                }
+            }
+            if reason == "RateLimited" && case.ratelimit.is_none() {
+                return Err(viol("C13/discard-reason-not-applicable", format!("job {id} was discarded as RateLimited but no rate limiter is configured")));
+            }
+            if reason == "Loadshed" && !limit_ever {
+                return Err(viol("C13/discard-reason-not-applicable", format!("job {id} was discarded as Loadshed but no discard limit was ever configured")));
+            }
+        }
         if f.starts.len() > 1 {
             return Err(viol("C13/handled-twice", format!("job {id} (key {}) was started {} times: {:?}", f.key, f.starts.len(), f.starts)));
         }
